@@ -101,7 +101,7 @@ def repr_of(ev, v, node=None):
 def str_lower(ev, t):
     s = z3.simplify(t)
     if z3.is_string_value(s):
-        return z3.StringVal(s.as_string().lower())
+        return z3.StringVal(py_string(s).lower())
     f = ufunc("str_lower", S, S)
     r = f(t)
     key = ("lower", t.get_id())
@@ -180,7 +180,7 @@ def const_str(v):
     if isinstance(v, VStr):
         s = z3.simplify(v.t)
         if z3.is_string_value(s):
-            return s.as_string()
+            return py_string(s)
     return None
 
 
@@ -675,6 +675,8 @@ def to_list(ev, v, node):
         return v
     if isinstance(v, VTuple):
         return ev.list_from_values(list(v.items))
+    if isinstance(v, VStr) and z3.is_string_value(z3.simplify(v.t)) and not v.isbytes:
+        return ev.list_from_values(ev.iter_concrete(v, node))
     if isinstance(v, VFunc) and v.kind == "genexp":
         gnode, frame, bound = v.data
         sub = ev.sub(frame=frame)
@@ -1028,7 +1030,7 @@ def b_int(ev, args, kwargs, node):
         s = z3.simplify(v.t)
         if z3.is_string_value(s):
             try:
-                return VInt(int(s.as_string()))
+                return VInt(int(py_string(s)))
             except ValueError:
                 ev.require(False, "ValueError", node)
                 raise Unsupported("unconditional failure in a pure context: int() of bad literal")
